@@ -43,6 +43,13 @@ Theorem C16_tiling : forall (lineMode : bool) (s : list N),
     (length body <= length s)%nat.
 Proof. exact lex_all_tiling. Qed.
 
+(* the whitespace class itself is fixed: the bytes skipWhitespace may drop (the generated isWhiteSpace) are
+   exactly space, tab, LF, CR among all 256 byte values - otherwise "whitespace or in a token" could be
+   satisfied by letting skipWhitespace swallow more *)
+Theorem C16_whitespace_is_space_tab_lf_cr : forall b : N,
+  b < 256 -> isWhiteSpace b = ((b =? 32) || (b =? 9) || (b =? 10) || (b =? 13)).
+Proof. exact whitespace_pinned. Qed.
+
 (* in file mode nothing but the end of input is under the end marker: every non-whitespace byte of the
    input belongs to exactly one token *)
 Theorem C16_tiling_file_mode : forall (s : list N) (j : nat) (c : N),
@@ -173,6 +180,7 @@ Example C16_ex_intern :
 Proof. vm_compute. reflexivity. Qed.
 
 Print Assumptions C16_tiling.
+Print Assumptions C16_whitespace_is_space_tab_lf_cr.
 Print Assumptions C16_tiling_file_mode.
 Print Assumptions C16_literal_is_span.
 Print Assumptions C16_string_span.
